@@ -262,6 +262,17 @@ def apply_case(mod, ctx, case, kf_entries, record=True):
             bool(info.get("nontrivial", False)),
             info.get("classes", ()),
         )
+        # checks that enumerate many fault points / schedules inside one case report them here
+        extra = int(info.get("evaluations", 1)) - 1
+        if extra > 0:
+            ctx.evaluations += extra
+        keys = info.get("nontrivial_keys")
+        if keys:
+            h = case_hash(case)
+            for k in keys:
+                ctx.nontrivial.add(hashlib.sha1((h + "|" + str(k)).encode()).hexdigest()[:16])
+        for c, n in (info.get("class_counts") or {}).items():
+            ctx.classes[c] += n
     for mm in mms:
         ctx.mismatch(mm, case, known=classify(mod, mm, case, kf_entries))
     return mms
